@@ -4,8 +4,13 @@
 cd /verif
 ids=("$@"); [ ${#ids[@]} -eq 0 ] && ids=($(ls seeded | grep -E '^C[0-9]+_'))
 out=seeded/MATRIX.md
+# MERGE=1: keep the rows of all other seeds from the existing table and replace / add only the given ones
 echo "| seed | property | check exit | what the check reported |" > $out.tmp
 echo "|---|---|---|---|" >> $out.tmp
+if [ -n "$MERGE" ] && [ -f $out ]; then
+  pat=$(printf '%s\n' "${ids[@]}" | sed 's/^/^| /; s/$/ |/' | paste -sd'|')
+  tail -n +3 $out | grep -vE "$pat" >> $out.tmp
+fi
 for id in "${ids[@]}"; do
   prop=${id%%_*}
   [ -f seeded/$id/patch.diff ] || continue
@@ -17,4 +22,4 @@ for id in "${ids[@]}"; do
   echo "| $id | $prop | $rc ($verdict) | $what |" >> $out.tmp
   echo "$id $rc"
 done
-mv $out.tmp $out
+{ head -2 $out.tmp; tail -n +3 $out.tmp | sort -V; } > $out && rm -f $out.tmp
